@@ -49,6 +49,18 @@ package main
 //     package-level `var m = make(map[V]K)` that a func init() fills as the inverse of a map literal (and nothing
 //       else touches): the inverse list, provided the literal's values are distinct
 //     panic(...)  and calls of methods whose own body ends in panic (t.errorf ...)
+//     local `const` declarations (the name stands for its value); a local strings.Builder like a bytes.Buffer;
+//       strings.Join(strings.Split(s, old), new) as strings.Replace(s, old, new, -1)
+//     NORMALISATIONS (gotrans_norm.go), so that two spellings of one thing give one Gallina shape:
+//       for i := 0; i < len(xs); i++ { ... xs[i] ... } with i used only as xs[i] = the range loop over xs;
+//       a receiver-changing call that is an operand of a return / assignment expression whose other leaves are
+//       literals and variables it does not change is taken out in front of the statement;
+//       an interface-typed parameter handed on to a helper (its m_<param>_<Method> become the caller's)
+//     INTERFACE of what is emitted, kept stable under refactoring:
+//       `lookup:` items (gotrans_apply.go): a map literal OR a function in its role -> src_<pkg>_<name>_at : Z -> Z;
+//       every function over data.Value also as <name>_V with the WHOLE value vocabulary as parameters;
+//       helpers that no lemma names get `Hint Unfold ... : src_helpers` (proofs say `autounfold with src_helpers`);
+//       a fuel measure may say `@var` for "the one local variable the loop assigns"
 //   over bool, the integer types (int, rune, byte, uint32, uint64, named ones such as
 //   itemType, ast.Pos, ast.AutoescapeType), string, []byte, slices and maps of those,
 //   struct parameters / receivers that are only read (field x.f becomes parameter v_x_f),
@@ -513,6 +525,10 @@ func (g *gen) resolveType(p *gpkg, f *ast.File, e ast.Expr, depth int) *gtype {
 				}
 			}
 			if f != nil && importOf(f, q.Name) == "bytes" && x.Sel.Name == "Buffer" {
+				return tBuffer
+			}
+			// a local strings.Builder is used through the same methods (it has no Bytes; Go rejects that call itself)
+			if f != nil && importOf(f, q.Name) == "strings" && x.Sel.Name == "Builder" {
 				return tBuffer
 			}
 			return &gtype{kind: kOther, name: q.Name + "." + x.Sel.Name, valueKind: -1}
